@@ -129,18 +129,23 @@ CHECKS = {
          "(code, name, kind) error set of the code = that of the model for random root paths, plus direct checks that every error name "
          "extends the root. Partial: the theorem takes the options without the Swagger pre-checks (whose two messages name the missing keyword).",
          "Lean 4 proof (located-error invariant through the validator tree, result laws) + located-error-set correspondence", "DESIGN.md §6 C17, §14"),
- "C18": ("Lean model of the field-schemata bookkeeping (which schema reaches which (object, member) along every merge of the validator "
-         "tree) and of post.ApplyDefaults, with kernel-checked theorems for every list of recorded entries: present members stay, every "
-         "added member was absent and holds a default of a schema that reached it, every absent member reached with a default is filled. "
-         "Tie: post.ApplyDefaults on the real result (plain and recycling validator) vs. the model vs. the C18 statement evaluated from "
-         "a separate specification of applicable schemas. The equivalence of the recorded entries with that specification is established "
-         "by correspondence, not yet by a theorem.",
-         "Lean 4 proof (post-processor laws) + defaulted-data differential against model and specification", "DESIGN.md §6 C18/C19"),
- "C19": ("Kernel-checked theorems about the model of post.Prune for every list of recorded entries: a member remains exactly when an entry "
-         "reached it, array elements are never removed, scalars are untouched, pruning is idempotent. Tie: post.Prune on the real result "
-         "vs. the model vs. the C19 statement evaluated from the specification of applicable schemas; pruned data is validated and "
-         "pruned again. The equivalence of recorded entries and specification is by correspondence.",
-         "Lean 4 proof (prune laws, idempotence) + pruned-data differential against model and specification", "DESIGN.md §6 C18/C19"),
+ "C18": ("Kernel-checked theorems: (1) for every schema of the C01 vocabulary, definitions table, $ref fuel, oracle and admissible instance "
+         "(every instance for the repaired configuration), the field-schemata entries the model of the validator tree records (along every "
+         "merge: properties, pattern and additional properties, items, tuple and additional items, every allOf member, the selected anyOf / "
+         "single oneOf alternative chosen by the model's own verdicts, schema dependencies) are, as a set, exactly the (object, member, default) "
+         "triples of the specification of applicable schemas — mutual structural induction through the tree, using the C01 verdict theorem for "
+         "the choice of alternatives; (2) for every list of entries post.ApplyDefaults keeps present members, adds only absent members with a "
+         "default of a schema that reached them, and fills every absent member reached with a default; (1)+(2): added members are exactly the "
+         "absent members for which an applicable schema declares a default. Tie: post.ApplyDefaults on the real result (plain and recycling "
+         "validator) vs. the model vs. the specification. Partial: for the code as it is the statement holds on the instances and schemas "
+         "outside the open C01 deviations (listed findings show their consequences here).",
+         "Lean 4 proof (entries = applicable schemas, post-processor laws) + defaulted-data differential", "DESIGN.md §6 C18/C19, §14"),
+ "C19": ("Kernel-checked theorems: with the entries-equal-applicable-schemas theorem of C18 (mutual structural induction, C01 verdicts for the "
+         "selected alternatives), pruning keeps a member of any object exactly when it is present and some applicable schema describes it — for "
+         "every schema of the vocabulary, definitions table, fuel, oracle and admissible instance (every instance for the repaired configuration); "
+         "array elements are never removed, scalars are untouched, pruning is idempotent. Tie: post.Prune on the real result vs. the model vs. "
+         "the specification; pruned data is validated and pruned again. Partial: as for C18, the code as it is outside the open C01 deviations.",
+         "Lean 4 proof (kept members = described members, idempotence) + pruned-data differential", "DESIGN.md §6 C18/C19, §14"),
  "C20": ("Lean 4 theorems over a list-level model of validate.Result (ordered-set union, additive counts, nil handling, every finite op "
          "sequence by induction); tied to result.go by replaying random op sequences on the real code and comparing every intermediate state.",
          "Lean 4 proof (induction over op sequences) + differential correspondence", "DESIGN.md §6 C20"),
